@@ -225,7 +225,9 @@ def list_theorems(prop_file, prefix):
     names = []
     ns = None
     with open(prop_file) as f:
-        for line in f:
+        text = strip_comments(f.read())
+    if True:
+        for line in text.splitlines():
             m = re.match(r"\s*namespace\s+(\S+)", line)
             if m and ns is None:
                 ns = m.group(1)
